@@ -9,7 +9,7 @@ Abstract operation (JSON, produced by the strategies; cells are [id_row, col] re
   {"op":"comment","text":..} {"op":"wash","scheme":n} {"op":"flush"} {"op":"commit"}
 WSEL: {"t":"scalar","w":cell} | {"t":"list"|"arr1","w":[cell..]} | {"t":"slice","r0","h","c0","w"} | {"t":"arr2","w":[[cell..]..]}
 VSEL: {"t":"scalar","v":VS} | {"t":"list","v":[VS..]} | {"t":"arr2","v":[[VS..]..]}
-VS  : number | {"f":x} | {"lim":k} | {"over":x} | "inf" | "huge"
+VS  : number | {"f":x} | {"f0":x} | {"lim":k} | {"over":x} | "inf" | "huge"   (f0: fraction of the room the well had BEFORE the call)
 Concrete operation: same keys, wells replaced by {"t":..,"ids":...}, volumes by floats.
 """
 import math
@@ -66,6 +66,9 @@ def vs_bad():
         st.fixed_dictionaries({"over": st.sampled_from([0.01, 0.01, 0.02, 0.5, 1.0, 10.0, 1000.0])}),
         st.fixed_dictionaries({"lim": st.sampled_from([-2, -1, 0, 0, 1, 2])}),
         st.sampled_from(["inf", "huge"]),
+        # fits the well as it was before the call: two of them on one real well (a repeated id, two rows of a
+        # trough column) are refused only by a check that follows the volumes within the call
+        st.fixed_dictionaries({"f0": st.sampled_from([0.55, 0.6, 0.75, 1.0])}),
     )
 
 
@@ -223,8 +226,8 @@ def resolve_vs(vs, have, vmin, vmax, direction, grid):
         return 1e300
     span = (have - vmin) if direction == "remove" else (vmax - have)
     span = max(span, 0.0)
-    if "f" in vs:
-        v = vs["f"] * span
+    if "f" in vs or "f0" in vs:
+        v = vs.get("f", vs.get("f0")) * span
         if grid:
             v = quantize(v, grid)
             while v > span:
@@ -310,11 +313,12 @@ def resolve(world, op):
         csel, flat = wsel_ids(spec, op["wells"])
         shape, vspecs = vsel_layout(op["vols"], csel, len(flat))
         run = _running(world, i)
+        run0 = dict(run)
         direction = "remove" if kind in ("remove", "aspirate") else "add"
         vols = []
         for w, vs in zip(flat, vspecs):
             idx = real_idx(spec, [LETTERS.index(w[0]), int(w[1:]) - 1])
-            v = resolve_vs(vs, run[idx], spec["min"], spec["max"], direction, g)
+            v = resolve_vs(vs, run0[idx] if isinstance(vs, dict) and "f0" in vs else run[idx], spec["min"], spec["max"], direction, g)
             if "cap" in op and math.isfinite(v):
                 v = min(v, quantize(float(op["cap"]), g))
             vols.append(v)
